@@ -77,7 +77,7 @@ def _run_tokens(shape, inp, acc):
     fmt = shape["fmt"]
     kind = shape["kind"]
     if fmt == "bool":
-        toks = {"true": D.TRUE_TOKENS, "false": D.FALSE_TOKENS}.get(kind, D.BOOL_GARBAGE)
+        toks = {"true": D.TRUE_TOKENS, "false": D.FALSE_TOKENS, "othernum": D.BOOL_OTHERNUM}.get(kind, D.BOOL_GARBAGE)
     else:
         toks = D.GARBAGE if kind == "garbage" else D.NONFINITE
     S = shape["S"]
